@@ -233,6 +233,11 @@ def check_list(out, seen, cx, name, idx, digs):
             if (not ic) and fr:
                 if nrows >= nvar and okA and K.rank_verdict_in_band(matA, nvar):
                     out.count("rank_verdict_at_noise_level")       # numpy's threshold vs a 1e-16 singular value
+                elif nrows < nvar:
+                    # Observation only: C08 promises full column rank WHENEVER the testers are informationally complete;
+                    # it does not say what is_fullrank_matA answers for an under-determined (wide) model, where the
+                    # library compares the rank with min(shape) and answers True.
+                    out.count("note_is_fullrank_true_for_underdetermined_model")
                 else:
                     K.fail_once(out, seen, "is_fullrank_matA:true-for-incomplete-testers:%s:%s" % (shape_class, tomo),
                                 "%s: matA is %dx%d, reference rank %d" % (where, nrows, nvar, rank))
